@@ -314,6 +314,32 @@ def run(ctx, R, tier):
         R.check(not badx, "C04-R6", "ctor-inert|%s" % q.split(".", 1)[1], "a constructor/state setter reachable from the decoder only stores or converts its argument", g.loc(),
                 "`%s` looks attributes up on a decoded value: if that value is a Proxy the lookup fetches metadata, i.e. decoding opens a connection to a peer-chosen address" % (unparse(badx[0]) if badx else ""))
 
+    # Proxy.__setattr__ sends every name that is not in Proxy.__pyroAttributes to the REMOTE object (metadata fetch = connect): an attribute that a Proxy method
+    # assigns on self must be declared there, or restoring / copying a proxy opens a connection - for __setstate__, while a message is being decoded
+    px = p.cls("Pyro5.client.Proxy")
+    declared = set()
+    for k_, v_ in px.class_attrs.items():
+        if k_.endswith("__pyroAttributes"):
+            for x in ast.walk(v_):
+                if isinstance(x, ast.Constant) and isinstance(x.value, str):
+                    declared.add(x.value)
+    if len(declared) < 10:
+        raise AnalysisError("Proxy.__pyroAttributes: the declaration of the proxy's own attribute names vanished")
+    undeclared = []
+    for mname, m in sorted(px.methods.items()):
+        if m.self_name is None:
+            continue
+        for st, t, k in stores_in(m.node):
+            if isinstance(t, ast.Attribute) and isinstance(t.value, ast.Name) and t.value.id == m.self_name:
+                nm = t.attr
+                from ..engine.model import mangle
+                if nm not in declared and mangle("Proxy", nm) not in declared and not (nm.startswith("__") and nm.endswith("__")):
+                    undeclared.append((m, st, nm))
+    R.check(not undeclared, "C04-R6", "Proxy|own-attributes-declared", "every attribute a Proxy method assigns on self is listed in Proxy.__pyroAttributes (%d names)" % len(declared),
+            undeclared[0][0].loc(undeclared[0][1]) if undeclared else px.module.relpath,
+            ("Proxy.%s assigns self.%s, which is not in __pyroAttributes: Proxy.__setattr__ treats it as an attribute of the remote object, fetches the metadata and so connects to the "
+             "location in the proxy's uri - in __setstate__ that happens while a peer's message is being decoded" % (undeclared[0][0].name, undeclared[0][2])) if undeclared else "")
+
     # ---------------------------------------------------------------- R5
     ser = p.module("Pyro5.serializers")
     loops = [st for st in ser.tree.body if isinstance(st, ast.For) and any(isinstance(x, ast.Subscript) and unparse(x.value) == "all_exceptions" and isinstance(x.ctx, ast.Store)
